@@ -3,6 +3,7 @@
 -/
 import CosetProofs.KeyLoop
 import CosetProofs.HeaderFields
+import CosetProofs.Cbor.Encodings
 namespace Coset.Props.C12
 open Coset
 
@@ -148,6 +149,24 @@ theorem claims_encode_dup_refuted :
 example : (hdrFromValue (.map [(.int 4, .bytes [1]), (.int 4, .bytes [2])])).errKind? = some .duplicateMapKey := by decide +kernel
 example : (fromSlice hdrFromValue [0xa2, 0x01, 0x26, 0x18, 0x01, 0x00]).errKind? = some .duplicateMapKey := by decide +kernel
 
+/-- "however each key is encoded": whatever well-formed encoding of a map with two keys denoting the same label arrives (the two
+    keys possibly written in different widths, the map definite or indefinite), `Header::from_slice` does not accept it. -/
+theorem header_dup_rejected_any_encoding (m : List (Value × Value)) (ls : List Label) (b : Bytes) (hb : Spec.Encodes (.map m) b)
+    (hd : Cbor.depthOf (.map m) ≤ Cbor.recursionLimit) (hl : labelsOf m = .ok ls) (hdup : ¬ ls.Nodup) :
+    ∀ h, fromSlice hdrFromValue b ≠ .ok h := by
+  intro h hok
+  rw [fromSlice_of_encodes _ _ b hb hd] at hok
+  exact header_dup_rejected _ _ m ls hl hdup h hok
+
+theorem key_dup_rejected_any_encoding (m : List (Value × Value)) (b : Bytes) (hb : Spec.Encodes (.map m) b)
+    (hd : Cbor.depthOf (.map m) ≤ Cbor.recursionLimit) (k : CoseKey) (hok : fromSlice CoseKey.fromValue b = .ok k) :
+    ∃ ls, labelsOf m = .ok ls ∧ ls.Nodup := by
+  rw [fromSlice_of_encodes _ _ b hb hd] at hok
+  exact key_accepts_only_distinct m k hok
+
+/-- the same label written as `01` and as `18 01` in one map: an encoding of a map with a repeated key, and it is refused. -/
+example : (fromSlice hdrFromValue [0xa2, 0x01, 0x26, 0x18, 0x01, 0x26]).errKind? = some .duplicateMapKey := by decide +kernel
+
 #print axioms header_accepts_only_distinct
 #print axioms header_dup_rejected
 #print axioms protected_dup_rejected
@@ -157,5 +176,7 @@ example : (fromSlice hdrFromValue [0xa2, 0x01, 0x26, 0x18, 0x01, 0x00]).errKind?
 #print axioms restToPairs_ok
 #print axioms restToPairs_dup
 #print axioms claims_encode_dup_refuted
+#print axioms header_dup_rejected_any_encoding
+#print axioms key_dup_rejected_any_encoding
 
 end Coset.Props.C12
